@@ -283,6 +283,16 @@ package rac
 //@   ensures[resources] unchanged(w.resourcesCOffCLens)
 //@   modifies *w
 
+// Range helpers (used across packages; substituted at call sites).
+//@ func (Range).Empty
+//@   prop C15 C14 C13
+//@   inline
+
+//@ func (Range).Size
+//@   prop C15 C14 C13
+//@   wraps sub
+//@   inline
+
 // ---- chunk_reader.go: node layout (RAC spec, "Branch Nodes") ----
 
 //@ spec u48(b []byte) int64 = int64(b[0]) + int64(b[1])*256 + int64(b[2])*65536 + int64(b[3])*16777216 + int64(b[4])*4294967296 + int64(b[5])*1099511627776
